@@ -27,12 +27,23 @@ def nhOf? : Term → Option (Option Bytes)
   | .atom "none" => some none
   | t => (asBytes? t).map some
 
+def attrOf? : Term → Option Attr
+  | .list [c, f, .atom k, v] => do
+      let code ← natLt? 256 c
+      let flags ← natLt? 256 f
+      match k with
+      | "val" => pure { code, flags, kind := .val, val := (← natLt? 4294967296 v), data := [] }
+      | "bin" => pure { code, flags, kind := .bin, val := 0, data := (← asBytes? v) }
+      | "opq" => pure { code, flags, kind := .opq, val := 0, data := (← asBytes? v) }
+      | _ => none
+  | _ => none
+
 def contentOf (t : Term) : Content :=
   match t with
-  | .list [.atom "reach", f, .list es, nh, attrs] =>
-      match asNat? f, es.mapM entOf?, nhOf? nh with
-      | some f, some es, some nh => .reach f es nh (strBytes (toStr attrs))
-      | _, _, _ => .other (strBytes (toStr t))
+  | .list [.atom "reach", f, .list es, nh, .list attrs] =>
+      match asNat? f, es.mapM entOf?, nhOf? nh, attrs.mapM attrOf? with
+      | some f, some es, some nh, some as => .reach f es nh as
+      | _, _, _, _ => .other (strBytes (toStr t))
   | .list [.atom "unreach", f, .list es] =>
       match asNat? f, es.mapM entOf? with
       | some f, some es => .unreach f es
@@ -52,17 +63,6 @@ def hdrOf? : Term → Option PeerHdr
       pure { ptype := (← natLt? 256 pt), flags := (← natLt? 256 fl), dist := (← natLt? 18446744073709551616 d),
              addr := (← ipOf? ip), asn := (← natLt? 4294967296 asn), bgpId := (← bytesLen? 4 id),
              ts := (← natLt? 4294967296 ts) }
-  | _ => none
-
-def attrOf? : Term → Option Attr
-  | .list [c, f, .atom k, v] => do
-      let code ← natLt? 256 c
-      let flags ← natLt? 256 f
-      match k with
-      | "val" => pure { code, flags, kind := .val, val := (← natLt? 4294967296 v), data := [] }
-      | "bin" => pure { code, flags, kind := .bin, val := 0, data := (← asBytes? v) }
-      | "opq" => pure { code, flags, kind := .opq, val := 0, data := (← asBytes? v) }
-      | _ => none
   | _ => none
 
 def reasonOf? : Term → Option DownReason
@@ -117,8 +117,8 @@ def recOf? : Term → Option Rec
       else none
   | _ => none
 
-def rowOf? : Term → Option (Bytes × Content × Content)
-  | .list [.atom "f", b, c0, c1] => (asBytes? b).map fun b => (b, contentOf c0, contentOf c1)
+def rowOf? : Term → Option (Bool × Bytes × Content)
+  | .list [.atom "f", ap, b, c] => do pure ((← asBool? ap), (← asBytes? b), contentOf c)
   | _ => none
 
 def caseOf? : Term → Option Case
